@@ -121,12 +121,18 @@ class ExceptIf(ConclusionSelector):
                 self._conclusion_.update(self.right._conclusion_)
                 output = left_value.copy()
                 output.update(right_value)
-                yield output
-                self._conclusion_.clear()
+                try:
+                    yield output
+                finally:
+                    # (also when the consumer stops at this result, otherwise the next evaluation starts with it)
+                    self._conclusion_.clear()
             if not right_yielded:
                 self._conclusion_.update(self.left._conclusion_)
-                yield left_value
-                self._conclusion_.clear()
+                try:
+                    yield left_value
+                finally:
+                    # (also when the consumer stops at this result, otherwise the next evaluation starts with it)
+                    self._conclusion_.clear()
 
 
 @dataclass(eq=False)
@@ -152,8 +158,11 @@ class Alternative(ElseIf, ConclusionSelector):
                 self.update_conclusion(output, self.left._conclusion_)
             elif right_is_true:
                 self.update_conclusion(output, self.right._conclusion_)
-            yield output
-            self._conclusion_.clear()
+            try:
+                yield output
+            finally:
+                # (also when the consumer stops at this result, otherwise the next evaluation starts with it)
+                self._conclusion_.clear()
 
 
 @dataclass(eq=False)
@@ -169,5 +178,8 @@ class Next(EQLUnion, ConclusionSelector):
                 self.update_conclusion(output, self.left._conclusion_)
             if self.right_evaluated:
                 self.update_conclusion(output, self.right._conclusion_)
-            yield output
-            self._conclusion_.clear()
+            try:
+                yield output
+            finally:
+                # (also when the consumer stops at this result, otherwise the next evaluation starts with it)
+                self._conclusion_.clear()
